@@ -23,6 +23,10 @@ def loops_in_order(fnode):
                 rec(s.orelse)
             elif isinstance(s, (ast.With, ast.Try)):
                 rec(getattr(s, "body", []))
+                for h in getattr(s, "handlers", []):
+                    rec(h.body)
+                rec(getattr(s, "orelse", []))
+                rec(getattr(s, "finalbody", []))
 
     rec(fnode.body)
     return out
@@ -404,6 +408,8 @@ class Verifier(Executor):
                     if out[0] in ("next", "continue"):
                         self.apply_hints(s2, lc.get("step_hints"), {})
                         self.check_invariants(s2, lc, "inv-step", {}, line)
+                        for lbl, clause in lc.get("step_ensures", []):
+                            self.oblige(s2, "post", lbl, self.eval_spec(clause, s2, {}), tags=self.tags_for(lbl), line=line)
                         if dec:
                             m1 = self.eval_measure(dec, s2)
                             self.oblige(s2, "term", "decreases", self.lex_less(m1, m0), tags={"C04"}, line=line)
